@@ -183,6 +183,22 @@ Example announces_and_serves :
   serve ex_tbl (final ex_tbl [] (ex_pre ++ ORender Fragment ex_insts :: mid)) GET (url (chash ex_b) KJs None) = R404.
 Proof. vm_compute. repeat split. Qed.
 
+(* The assumption "class hashes are distinct" (wf_table; = component classes have distinct import paths) is necessary:
+   with only "hashes are URL segments" the main theorem is false - two classes with the same module and name share
+   one cache entry, and the URL announced for the second is answered 200 with the code of the first
+   (Serve/Proofs.v `same_hash_served_first_code`).  Stated in evidence.assumptions; the generator uses distinct paths. *)
+Example emitted_url_served_without_distinct_hashes_refuted :
+  ~ (forall tbl pre m insts js css,
+       Forall (fun c => seg_ok (chash c)) tbl -> Forall (wf_op tbl) pre -> Forall (wf_inst tbl) insts ->
+       snd (step tbl (final tbl [] pre) (ORender m insts)) = OutUrls js css ->
+       forall u, In u (js ++ css) ->
+       exists i k ih,
+         In i insts /\ produced i k ih /\ u = url (chash (icls i)) k ih /\
+         forall mid, no_evict (gen_cache_key (chash (icls i)) (kstr k) ih) mid ->
+           serve tbl (final tbl [] (pre ++ ORender m insts :: mid)) GET u
+             = R200 (expected (icls i) k ih) (ctype k)).
+Proof. exact emitted_url_served_without_distinct_hashes_refuted_lemma. Qed.
+
 (* Boundary of the statement (documentation, not a claim about the property): markers rendered BEFORE an eviction
    and processed in fragment mode AFTER it (render_dependencies=False ... later render_dependencies(type="fragment"))
    are announced without looking at the cache, so such a URL answers 404 until the component is rendered again.
